@@ -1106,6 +1106,10 @@ package http2
 //@ # every DATA frame fits the stream window, the connection window and the smallest legal SETTINGS_MAX_FRAME_SIZE
 //@ # (the only empty frame is the one that carries END_STREAM after the reader has ended)
 //@ assert@call:(*serverConn).write#1 fits: ((step >= 1 && step <= strm.window && step <= sc.clientWindow && step <= 16384) || (step == 0 && end)) && len(chunk) == step
+//@ # the frame is a DATA frame on this stream carrying exactly those octets, unpadded, with END_STREAM exactly when the body ends here (C01)
+//@ assert@call:(*serverConn).write#1 frame: arg1 != nil && arg1.stream == strm.id && typeis(arg1.fr, *Data) && as(arg1.fr, *Data).endStream == end &&
+//@ |   !as(arg1.fr, *Data).hasPadding && len(as(arg1.fr, *Data).b) == len(chunk)
+//@ # (that the octets in the frame are those of chunk is not proved: the pooled frame's buffer is not known to be apart from the body)
 //@ # END_STREAM goes out exactly once: nothing is sent after it ...
 //@ assert@call:(*serverConn).write#1 once: !ended
 //@ loop 0: invariant notended: !ended && strm.bodyStream == old(strm.bodyStream) && (old(strm.pendingEnd) ==> strm.pendingEnd)
